@@ -441,11 +441,9 @@ func keyExchange(klen int, ida, idb []byte, pri *PrivateKey, pub *PublicKey, rpr
 		return buf
 	}
 	vxBuf, vyBuf := to32(vx), to32(vy)
-	k, ok := kdf(klen, vxBuf, vyBuf, za, zb)
-	if !ok {
-		err = errors.New("kdf: zero key")
-		return
-	}
+	// GM/T 0003.3 has no "all-zero key" step (that is A5 of the encryption algorithm, GM/T 0003.4): for a
+	// short klen an all-zero K is an ordinary outcome (1 in 256 for one byte) and both parties derive it.
+	k, _ = kdf(klen, vxBuf, vyBuf, za, zb)
 	ra, rb := rpub, &rpri.PublicKey
 	if thisISA {
 		ra, rb = &rpri.PublicKey, rpub
